@@ -95,9 +95,11 @@ HANDLERS = [
 _DU_CACHE = {}
 
 
-def return_status(ctx, fi, r) -> Optional[int]:
+def return_status(ctx, fi, r, after=None) -> Optional[int]:
     """HTTP status answered by return node *r* of *fi*: of the returned expression, or - when a local name is
-    returned - of every expression that name can hold there (None if unknown or not unique)."""
+    returned - of every expression that name can hold there (None if unknown or not unique).  With *after* (a list
+    of CFG nodes) only values produced on a path that starts at one of those nodes count - "what does this return
+    answer when it is reached from there" - unless the value was produced before them."""
     v = r.ast.value
     if v is None:
         return None
@@ -111,7 +113,13 @@ def return_status(ctx, fi, r) -> Optional[int]:
         _DU_CACHE.clear()
         du = _DU_CACHE[key] = DefUse(cfg)
     sts = set()
-    for o in origins(du, r, v):
+    os_ = origins(du, r, v)
+    if after:
+        reach = cfg.reachable(list(after))
+        later = [o for o in os_ if o.node is not None and o.node.id in reach]
+        if later:
+            os_ = later
+    for o in os_:
         if o.kind != "expr" or o.leaf is None or o.path:
             return None
         sts.add(response_status(ctx, fi, o.leaf))
@@ -315,7 +323,24 @@ def h1(ctx):
                       "subcollections() can return without enumerating self.store.subdirectories(), while get_member() still resolves those names: a nested "
                       "collection answers Depth:0 but is missing from its parent's Depth:1 listing"))
     gm = ctx.own_method("xandikos.web.StoreBasedCollection", "get_member")
-    uses = any(isinstance(n, ast.Call) and dotted(n.func) == "self.store.subdirectories" for n in ast.walk(gm.node))
+    gcfg = ctx.cfg(gm)
+    uses = any(dotted(c.func) == "self.store.subdirectories" for n in gcfg.stmt_nodes() for c in n.calls())
+    if not uses:
+        # the lookup goes through a store method the reference tree does not have, with several implementations that are
+        # meant to agree with subdirectories(): equivalence of sibling implementations is not decided here
+        store_base = ctx.P.cls("xandikos.store.Store")
+        for n in gcfg.stmt_nodes():
+            for c in n.calls():
+                d = dotted(c.func) or ""
+                if d.startswith("self.store.") and d.count(".") == 2:
+                    impls = ctx.P.dispatch_targets(store_base, d.split(".")[-1])
+                    if impls and all(ctx.cfgs.inliner.is_new(t) for t in impls) and \
+                            any(dotted(cc.func) == "self.subdirectories" for t in impls for cc in ast.walk(t.node) if isinstance(cc, ast.Call)):
+                        if len(impls) > 1:
+                            raise AnalysisError("StoreBasedCollection.get_member looks sub-collections up through store.%s(), which has %d implementations "
+                                                "(%s); whether each of them agrees with subdirectories() is not modelled"
+                                                % (d.split(".")[-1], len(impls), ", ".join(t.qualname for t in impls)))
+                        uses = True
     mem = ctx.own_method("xandikos.web.StoreBasedCollection", "members")
     lists = any(isinstance(n, ast.Call) and dotted(n.func) == "self.subcollections" for n in ast.walk(mem.node))
     obs.append(ctx.ob(uses and lists, gm.qualname, gm.where, "get_member and members() agree on sub-collections",
@@ -552,7 +577,7 @@ def w1(ctx):
       desc="an acknowledged write is performed: _import_one returns normally only after the commit, or through the "
            "'unchanged' side of the comparison of the new and the old object id")
 def w2(ctx):
-    from .c09 import BARE, TREE, _commit_nodes, _is_change_test, _index_names
+    from .c09 import BARE, TREE, _commit_nodes, change_tests, _index_names
     obs = []
     for cq in (BARE, TREE):
         fi = ctx.own_method(cq, "_import_one")
@@ -563,10 +588,11 @@ def w2(ctx):
             raise AnalysisError("%s._import_one: no _commit_tree call" % cq)
         index_vars = _index_names(cfg, du)
         unchanged_edges = []
+        ctests = change_tests(cfg, du, index_vars)
         for n in cfg.nodes:
             if n.kind != "test":
                 continue
-            lab = _is_change_test(n.ast, index_vars)
+            lab = ctests.get(id(n.ast))
             if lab:
                 other = "f" if lab == "t" else "t"
                 unchanged_edges.extend((n, m, l) for m, l in n.succ if l == other)
@@ -579,8 +605,8 @@ def w2(ctx):
             # without passing a commit the exit must then be unreachable
             from .common import const_walk
 
-            def decide(t_, _iv=index_vars):
-                lab_ = _is_change_test(t_, _iv)
+            def decide(t_, _ct=ctests):
+                lab_ = _ct.get(id(t_))
                 return None if lab_ is None else (lab_ == "t")
 
             try:
